@@ -68,7 +68,10 @@ StepLine(s, raw) ==
     IF s.st # "reading" \/ l = <<>> THEN s
     ELSE LET s1 == IF StartsWith(l, LitPkgnameEq) /\ s.buf # <<>> THEN Flush(s) ELSE s
          IN IF s1.st = "failed" THEN s1 ELSE [s1 EXCEPT !.buf = Append(@, l)]
+\* an I/O error reported by the reader fails the whole read - except ErrorKind::Interrupted,
+\* which every std reading loop retries and which therefore is invisible
 StepIoError(s) == IF s.st = "reading" THEN [s EXCEPT !.st = "failed"] ELSE s
+StepIoErrorKind(s, kind) == IF kind = "Interrupted" THEN s ELSE StepIoError(s)
 StepEof(s) == IF s.st # "reading" THEN s
               ELSE LET s1 == IF s.buf # <<>> THEN Flush(s) ELSE s IN IF s1.st = "failed" THEN s1 ELSE [s1 EXCEPT !.st = "done"]
 
